@@ -258,7 +258,7 @@ func (r *Run) callFunction(fn *ssa.Function, args []Value, bindings []Value) (re
 		if h := r.eng.intrinsic(fn); h != nil {
 			return h(r, fn, args)
 		}
-		panic(unsupported("call to function without body: " + fn.String()))
+		panic(unsupported("call to function without body: " + fn.String() + " (called at " + r.curPos() + ")"))
 	}
 	if h := r.eng.intrinsic(fn); h != nil && !r.bypass[fn] {
 		return h(r, fn, args)
